@@ -108,11 +108,11 @@ func (m *KVModel[K, V]) Clear() {
 // seenIn reports whether key k was actually Put into class i.
 func (m *KVModel[K, V]) seenIn(i int, k K) bool {
 	e := &m.Ents[i]
-	if e.Key == k {
+	if identical(e.Key, k) {
 		return true
 	}
 	for _, s := range e.Seen {
-		if s == k {
+		if identical(s, k) {
 			return true
 		}
 	}
